@@ -37,7 +37,14 @@ rm -f $wt/$demo
 mods="."
 if git -C $wt diff --name-only | grep -q '^pkg/adapters/'; then mods=$(git -C $wt diff --name-only | grep '^pkg/adapters/' | cut -d/ -f1-3 | sort -u); fi
 r2=0
-for m in $mods; do ( cd $wt/$m && go test -mod=mod -vet=off -count=1 ./... ) > /tmp/confirm-$id.suite.log 2>&1; grep -E "^(FAIL[[:space:]]+[^[:space:]]|[[:space:]]*--- FAIL)" /tmp/confirm-$id.suite.log | grep -v "TestHotSpotParamRuleJsonArrayParser\|sentinel-golang/ext/datasource[[:space:]]" > /tmp/confirm-$id.fails; [ -s /tmp/confirm-$id.fails ] && r2=1; done
+for m in $mods; do ( cd $wt/$m && go test -mod=mod -vet=off -count=1 ./... ) > /tmp/confirm-$id.suite.log 2>&1; grep -E "^(FAIL[[:space:]]+[^[:space:]]|[[:space:]]*--- FAIL)" /tmp/confirm-$id.suite.log | grep -v "TestHotSpotParamRuleJsonArrayParser\|sentinel-golang/ext/datasource[[:space:]]" > /tmp/confirm-$id.fails; if [ -s /tmp/confirm-$id.fails ]; then
+  # timing-sensitive tests of the repository (CPU statistics, recycler timers) fail now and then on a loaded machine:
+  # a package counts as failing only if it fails again when run on its own, twice
+  pk=$(grep -E "^FAIL[[:space:]]" /tmp/confirm-$id.fails | awk '{print $2}' | sed "s#github.com/alibaba/sentinel-golang#.#")
+  still=""
+  for p in $pk; do ( cd $wt/$m && go test -mod=mod -vet=off -count=1 $p >/dev/null 2>&1 || go test -mod=mod -vet=off -count=1 $p >/dev/null 2>&1 ) || still="$still $p"; done
+  [ -n "$still" ] && r2=1 && echo "still failing on their own:$still"
+fi; done
 echo "CONFIRM $id: demo_without_patch_exit=$r0 demo_with_patch_exit=$r1 suite_fail=$r2"
 [ $r2 = 1 ] && cat /tmp/confirm-$id.fails | head
 [ $r0 = 0 ] && [ $r1 != 0 ] && [ $r2 = 0 ] && echo "CONFIRMED $id" || echo "NOT-CONFIRMED $id"
